@@ -158,7 +158,7 @@ def run_fuzz_property(prop, spec, tier, seed):
         if pr.get("valgrind"):
             # uninitialised reads / invalid accesses as seen by memcheck on a sanitizer-free build; the first error ends the
             # process, which leaves minidrv's crash-current-<pid> file (the input being executed) behind as the reproducer
-            cmd = ["valgrind", "-q", "--error-exitcode=1", "--exit-on-first-error=yes", "--leak-check=no"] + cmd
+            cmd = ["valgrind", "-q", "--vgdb=no", "--error-exitcode=1", "--exit-on-first-error=yes", "--leak-check=no"] + cmd
         running.append((pr, binary, subprocess.Popen(cmd, cwd=VERIF, stdout=subprocess.PIPE, stderr=subprocess.STDOUT, env=fuzz.base_env(known_sigs))))
     for pr, binary, pp in running:
         out = pp.communicate()[0].decode(errors="replace")
